@@ -243,6 +243,9 @@ class RPCReplyListener(SessionListener): # internal use
         if self._device_handler.perform_qualify_check():
             if tag != qualify("rpc-reply"):
                 return
+        elif tag == qualify("notification", NETCONF_NOTIFICATION_NS):
+            # notifications belong to the NotificationHandler, they are not replies
+            return
         if "message-id" not in attrs:
             # required attribute so raise OperationError
             raise OperationError("Could not find 'message-id' attribute in <rpc-reply>")
